@@ -1240,6 +1240,32 @@ fn run_stats_truth(ex: &mut Executor, spec: &ExecSpec, analysed: bool, label: &s
                 "report-Total-Errors",
                 format!("report shows Total Errors {n}, statistics file has {total}"),
             ));
+            return out;
+        }
+    }
+    // the FEE IDs the report lists are the lowest ones, and what it leaves out is counted: listed + `K more` == all
+    if let Some((listed, more)) = oracle::report_fee_ids(&r.stdout) {
+        // (the report shows them in ascending order)
+        let mut truth: Vec<u64> = t.fee_ids.iter().map(|f| *f as u64).collect();
+        truth.sort_unstable();
+        let ok = listed.len() as u64 + more == truth.len() as u64 && truth.starts_with(&listed);
+        if !ok {
+            out.fail = Some(Fail::new(
+                "statistics",
+                "report-FEE-IDs-seen",
+                format!(
+                    "report lists {} FEE IDs and `... {more} more`; the input has {} distinct FEE IDs (first listed {:?}, first in the input {:?}) [cmd: {}]",
+                    listed.len(),
+                    truth.len(),
+                    listed.first(),
+                    truth.first(),
+                    spec.cmdline()
+                ),
+            ));
+            return out;
+        }
+        if more > 0 {
+            ex.probe("c14_report_fee_id_list_cut");
         }
     }
     out
